@@ -342,7 +342,9 @@ impl<'a> Ctx<'a> {
                 self.problems.push(format!("{}: predicate {}", self.fname, tokens_of(e)));
                 "(fun _ => false)".into()
             }
-            Expr::Closure(c) if c.inputs.len() == 1 => {
+            Expr::Closure(c0) if c0.inputs.len() == 1 => {
+                let canon = crate::canon::canon_closure(c0);
+                let c = canon.as_ref().unwrap_or(c0);
                 let v = match &c.inputs[0] {
                     Pat::Ident(i) => i.ident.to_string(),
                     Pat::Type(t) => tokens_of(&t.pat),
@@ -625,6 +627,15 @@ impl<'a> Ctx<'a> {
             ("character::streaming::char", 1) => match self.lit_bytes(args[0]) {
                 Some(b) if b.len() == 1 => format!("(Leaf (LTag {}))", coq_bytes(&b)),
                 _ => self.unsupported("char of a non-ASCII/non-literal"),
+            },
+            // is_not(set) / is_a(set): split_at_position1 on (not) being in the set, i.e. take_while1 of the complement / the set
+            ("bytes::streaming::is_not", 1) => match self.lit_bytes(args[0]) {
+                Some(b) => format!("(Leaf (LTakeWhile1 (fun x : byte => negb (existsb (N.eqb x) {}))))", coq_bytes(&b)),
+                None => self.unsupported("is_not of a non-literal"),
+            },
+            ("bytes::streaming::is_a", 1) => match self.lit_bytes(args[0]) {
+                Some(b) => format!("(Leaf (LTakeWhile1 (fun x : byte => existsb (N.eqb x) {})))", coq_bytes(&b)),
+                None => self.unsupported("is_a of a non-literal"),
             },
             ("bytes::streaming::take_while", 1) => format!("(Leaf (LTakeWhile {}))", self.tr_pred(args[0])),
             ("bytes::streaming::take_while1", 1) => format!("(Leaf (LTakeWhile1 {}))", self.tr_pred(args[0])),
@@ -1014,9 +1025,31 @@ thread_local! {
 }
 
 pub fn translate(repo: &Path) -> Output {
-    let mods: Vec<String> = PARSER_FILES.iter().map(|(m, _)| m.to_string()).collect();
+    // the files known when the models were written, then whatever else lives in the parser directories now
+    // (a new extension gets its own file): the module name is the file stem
+    let mut files: Vec<(String, String)> = PARSER_FILES.iter().map(|(m, r)| (m.to_string(), r.to_string())).collect();
+    for dir in ["imap-proto/src/parser", "imap-proto/src/parser/rfc3501"] {
+        let mut extra: Vec<(String, String)> = vec![];
+        if let Ok(rd) = std::fs::read_dir(repo.join(dir)) {
+            for ent in rd.flatten() {
+                let p = ent.path();
+                if p.extension().and_then(|e| e.to_str()) != Some("rs") {
+                    continue;
+                }
+                let stem = p.file_stem().unwrap().to_string_lossy().to_string();
+                let rel = format!("{}/{}.rs", dir, stem);
+                if stem == "tests" || stem == "mod" || files.iter().any(|(_, r)| *r == rel) {
+                    continue;
+                }
+                extra.push((stem, rel));
+            }
+        }
+        extra.sort();
+        files.extend(extra);
+    }
+    let mods: Vec<String> = files.iter().map(|(m, _)| m.to_string()).collect();
     let mut modules: Vec<Module> = vec![];
-    for (name, rel) in PARSER_FILES {
+    for (name, rel) in &files {
         let src = std::fs::read_to_string(repo.join(rel)).unwrap_or_else(|e| panic!("{}: {}", rel, e));
         let file = syn::parse_file(&src).unwrap_or_else(|e| panic!("{}: {}", rel, e));
         let mut m = Module {
